@@ -150,6 +150,7 @@ def run(ctx):
     declare(ctx)
     r.rule("R9.2", "attribute gate: purge first and unconditionally; later stores only under a membership test of the same key", floor=4)
     r.rule("R9.3", "URI gate: an attribute survives only with no scheme or an allowed scheme (data: matched + allowed type)", floor=24)
+    r.rule("R9.8", "the URI gate deletes a rejected attribute exactly once in every case (custom protocol lists included)", floor=8)
     r.rule("R9.4", "methods consult self.<list>, never the module-level default", floor=10)
     r.rule("R9.5", "CSS: each kept declaration is dominated by an allow-list test; url() stripped before the gauntlet", floor=4)
     element_gate(ctx)
@@ -310,7 +311,6 @@ def uri_gate(ctx, at, cfg):
             return table[t2]
         return NotImplemented
     interp = MiniInterp(ce, at.module, guard_hook=guard_hook)
-    double = []
     for vals in itertools.product((True, False), repeat=5):
         env = dict(zip(("P_scheme", "P_allowed", "P_data", "P_match", "P_ctype"), vals))
         if not env["P_scheme"] and (env["P_data"]):
@@ -326,11 +326,10 @@ def uri_gate(ctx, at, cfg):
         r.check("R9.3", (not survives) or may, key, "%s:%d" % (REL, gate[0].lineno),
                 "a URI attribute survives with scheme present=%s allowed=%s data=%s content-type matched=%s allowed=%s"
                 % tuple(env.values()), env, detail=dict(env, survives=survives))
-        if len(dels) > 1:
-            double.append(key)
-    if double:
-        r.note("observation (outside C09's statement): the URI gate deletes the same attribute twice for %s -> KeyError when a "
-               "custom protocol list lacks 'data'" % double[:2])
+        r.check("R9.8", len(dels) <= 1, "deleted-once[%s]" % key[4:-1], "%s:%d" % (REL, gate[0].lineno),
+                "the URI gate deletes the attribute %d times for scheme present=%s allowed=%s data=%s content-type matched=%s allowed=%s: the "
+                "second `del` raises KeyError, so with a custom allowed_protocols that lacks `data` the filter dies on "
+                "`<img src=\"data:text/html,x\">` instead of removing the attribute" % ((len(dels),) + tuple(env.values())), env)
 
 
 def configured(ctx):
@@ -522,6 +521,7 @@ def thorough(ctx):
 def mutants():
     from ..selftest import TextMutant as T
     return [
+        T("uri-gate-double-delete", REL, "                    elif uri.scheme == 'data':", "                    if uri.scheme == 'data':", "R9.8"),
         T("url-strip-needs-nonspace", REL, "r'url\\s*\\([^)]*\\)\\s*'", "r'url\\s*\\(\\s*[^\\s)]+?\\s*\\)\\s*'", "R9.5"),
         T("url-strip-case-sensitive", REL, "[^)]*\\)\\s*', re.I).sub(' ', style)", "[^)]*\\)\\s*').sub(' ', style)", "R9.5"),
         T("url-strip-empty-replacement", REL, "[^)]*\\)\\s*', re.I).sub(' ', style)", "[^)]*\\)\\s*', re.I).sub('', style)", "R9.5"),
@@ -537,7 +537,7 @@ def mutants():
           "            if token[\"type\"] != \"EmptyTag\":\n                for to_remove in (attr_names - self.allowed_attributes):\n                    del token[\"data\"][to_remove]\n                    attr_names.remove(to_remove)", "R9.2"),
         T("style-recreated", REL, "            if (None, 'style') in attrs:\n                attrs[(None, 'style')] = self.sanitize_css(attrs[(None, 'style')])",
           "            attrs[(None, 'style')] = self.sanitize_css(attrs.get((None, 'style'), ''))", "R9.2"),
-        T("scheme-elif", REL, "                    if uri.scheme not in self.allowed_protocols:\n                        del attrs[attr]\n                    if uri.scheme == 'data':",
+        T("scheme-elif", REL, "                    if uri.scheme not in self.allowed_protocols:\n                        del attrs[attr]\n                    elif uri.scheme == 'data':",
           "                    if uri.scheme == 'data':", "R9.3"),
         T("ctype-unchecked", REL, "                        elif m.group('content_type') not in self.allowed_content_types:\n                            del attrs[attr]\n", "", "R9.3"),
         T("no-control-strip", REL, "                val_unescaped = re.sub(\"[`\\x00-\\x20\\x7f-\\xa0\\\\s]+\", '',", "                val_unescaped = re.sub(\"[`\\x7f-\\xa0]+\", '',", "R9.3"),
